@@ -92,16 +92,83 @@ def rule_auto(ctx, rep):
             mentioned = set()
             for f in adt["variants"][0]["fields"]:
                 ft = F.ty(f["ty"])
-                if ft["k"] == "adt" and ft["path"] == "core::marker::PhantomData":
-                    for x in F.walk(f["ty"]):
-                        if F.ty(x)["k"] == "param":
-                            mentioned.add(F.ty(x)["name"])
-            if set(tparams) <= mentioned:
-                rep.ok("R-PHANTOM", h, cfg=tag)
+                if ft["k"] == "adt" and ft["path"] == "core::marker::PhantomData" or (ft["k"] == "adt" and F.path_to_handle.get(ft["path"]) in OWNING_HANDLES):
+                    mentioned |= _owned_params(F, f["ty"])
+            db = F.body(F.drop_impls[hp]) or {}
+            dangle = set(g["name"] for g in db.get("generics", []) if g.get("may_dangle"))
+            if not dangle:
+                rep.ok("R-PHANTOM", h, "the Drop impl has no #[may_dangle] parameter: the drop checker already treats every parameter as used", cfg=tag)
+            elif dangle & set(tparams) <= mentioned:
+                rep.ok("R-PHANTOM", h, "#[may_dangle] %s owned through a marker" % sorted(dangle), cfg=tag)
             else:
-                rep.bad("R-PHANTOM", h, "%s owns and drops its payload but has no PhantomData mentioning %s: the drop checker would let it outlive data the payload borrows" % (h, sorted(set(tparams) - mentioned)), None, tag)
+                tparams = sorted(dangle & set(tparams))
+                rep.bad("R-PHANTOM", h, "%s owns and drops its payload but has no PhantomData (or owning handle field) that owns %s - a marker behind a raw pointer or reference does not count: under `#[may_dangle]` the drop checker would let it outlive data the payload borrows" % (h, sorted(set(tparams) - mentioned)), None, tag)
+        # R-LIFETIME: no safe function returns a borrow (reference, ArcBorrow<'a, _>, ...) whose lifetime is not tied to an input:
+        # an unconstrained output lifetime lets the caller pick `'static`, so the view outlives the handle it was taken from
+        for b in F.body_list:
+            if b["kind"] not in ("Fn", "AssocFn") or "out_regions" not in b:
+                continue
+            # `'static` counts only in a view position (`&'static T`, `ArcBorrow<'static, T>`): `&'static str` borrows nothing of ours
+            outs = [r for r in b["out_regions"] if r != "'static" or r in b.get("out_view_regions", [])]
+            if not outs:
+                continue
+            ins = set(b["in_regions"])
+            longer = {}
+            for a, c in b.get("region_outlives", []):
+                longer.setdefault(c, set()).add(a)  # a: c  (a outlives c)
+            unbound = []
+            for r in outs:
+                if r in ins:
+                    continue
+                seen, todo = set(), [r]
+                tied = False
+                while todo:
+                    x = todo.pop()
+                    if x in seen:
+                        continue
+                    seen.add(x)
+                    for q in longer.get(x, ()):
+                        if q in ins:
+                            tied = True
+                        todo.append(q)
+                if not tied:
+                    unbound.append(r)
+            if not unbound:
+                rep.ok("R-LIFETIME", b["key"], cfg=tag)
+            elif b.get("unsafe"):
+                rep.ok("R-LIFETIME", b["key"], "unsafe fn: the caller chooses and vouches for %s" % unbound, cfg=tag)
+            else:
+                rep.bad("R-LIFETIME", b["key"], "safe function `%s` returns a value borrowing for %s, a lifetime that occurs in none of its inputs (and is not outlived by one): the caller may choose any lifetime, `'static` included, so the returned view can outlive the handle or data it refers to" % (b["sig"], ", ".join(unbound)), F.loc(b), tag)
+    rep.floor("R-LIFETIME", 25, "functions whose result carries a lifetime")
     rep.floor("R-AUTO", 14, "12 impls on handle types + 2 on the allocation header")
     rep.floor("R-PHANTOM", 4, "four owning handles with Drop")
+
+
+def _owned_params(F, i, depth=0):
+    """Type parameters a type *owns* as far as the drop checker is concerned: reached without passing through a raw pointer,
+    a reference or a function pointer (`PhantomData<*const T>` or `PhantomData<&T>` tell dropck nothing about dropping a `T`)."""
+    t = F.ty(i)
+    k = t["k"]
+    if depth > 12:
+        return set()
+    if k == "param":
+        return {t["name"]}
+    if k in ("slice", "array"):
+        return _owned_params(F, t["t"], depth + 1)
+    if k == "tuple":
+        out = set()
+        for x in t["ts"]:
+            out |= _owned_params(F, x, depth + 1)
+        return out
+    if k == "adt":
+        if t["path"] in ("core::ptr::non_null::NonNull", "core::mem::manually_drop::ManuallyDrop"):
+            return set()
+        out = set()
+        for a in t.get("args", []):
+            if "t" in a:
+                out |= _owned_params(F, a["t"], depth + 1)
+        return out
+    return set()
 
 
 def rule_witnesses(ctx, rep, prefix="c13_"):
